@@ -44,7 +44,7 @@ CUSTOM = {"length": ("len", "2", "cm"), "time": ("tick", "5", "ms"), "mass": ("l
 FLOAT_VALUES = ["0", "0.0", "-2.5", "3", "7.25", "1e3", "-1E-2", "100", "0.5", "12345.678", "-0", "6.02e23",
                 "0.30000000000000004", "0.3333333333333333", "2.7182818284590451"]      # need 16-17 significant digits
 INT_VALUES = ["0", "-7", "3", "100", "-200", "5000", "12", "1"]
-STR_VALUES = ["x", "'y z'", '"dq w"', "bare2", "'it\\'s'", "0", "false", "none_"]
+STR_VALUES = ["x", "'y z'", '"dq w"', "bare2", "'it\\'s'", "0", "false", "none_", '""', "''"]
 
 
 @st.composite
